@@ -19,4 +19,5 @@ C_Args == {"|/MBOX-MESSAGE/1", "|/MBOX-MESSAGE/3"}
 C_HLs == {"default"}
 C_Reps == <<[f |-> "g", s |-> "/", a |-> ""], [f |-> "g", s |-> "/.cache.pygopherd.dir", a |-> ""], [f |-> "h_get", s |-> "/", a |-> ""]>>
 C_MaxHist == 1
+C_C20Cases == <<[line |-> "/about.txt\r\n", tls |-> FALSE, wap |-> FALSE, hl |-> "default", tail |-> "none", fk |-> 0, fcls |-> "none", nw |-> 1, id |-> "g :: /about.txt :: default"]>>
 =============================================================================
